@@ -123,11 +123,29 @@ func TestE2E(t *testing.T) {
 					writeOps = append(writeOps, o)
 				}
 			}
-			for rep := 0; rep < 3; rep++ {
+			var entryGets []opInfo
+			for _, o := range ops {
+				if o.Op == "get" && strings.Contains(o.Key, "#") {
+					entryGets = append(entryGets, o)
+				}
+			}
+			for rep := 0; rep < 4; rep++ {
 				fc := *c
 				fc.ID = fmt.Sprintf("%s~f%d", c.ID, rep)
 				fc.Stream = "W"
 				fc.Faults = nil
+				if rep == 3 {
+					// Plan 3: one read of a stored response returns its bytes with a single byte damaged
+					if len(entryGets) == 0 {
+						continue
+					}
+					o := entryGets[g.intn(len(entryGets))]
+					fc.Faults = []FaultSpec{{N: o.N, Kind: fmt.Sprintf("dmg%d", g.intn(1<<20))}}
+					_ = os.WriteFile(current, []byte(fc.Encode()), 0o644)
+					cases = append(cases, fc.Encode())
+					impl = append(impl, runCase(t, &fc, ropts)...)
+					continue
+				}
 				if rep == 2 {
 					if len(writeOps) == 0 {
 						continue
